@@ -25,10 +25,12 @@ SPEC = {
 ENC = "<std::ffi::OsStr as std::os::windows::ffi::OsStrExt>::encode_wide"
 
 
-def eq_literals(fn):
-    """literal set for which a `|c| c == K1 || c == K2 ..` closure returns true"""
+def eq_literals(fn, param=None):
+    """literal set for which a `|c| c == K1 || c == K2 ..` closure (or a plain `fn(c) -> bool`) returns true"""
     T = M.Terms(fn)
-    c = ("param", 2, fn.local_name(2))
+    if param is None:
+        param = 2 if (fn.j.get("is_closure") or "{closure" in fn.path) else 1
+    c = ("param", param, fn.local_name(param))
     lits = set()
     other = []
 
@@ -168,8 +170,8 @@ def run(ctx):
         head = min(loops[0])
         sp = [(bb, t) for bb, t in ac.calls(loops[0]) if M.callee_str(t["f"]) == "std::vec::Vec::<T, A>::push"]
         is_idx = lambda t: M.noref(t) == idx_item
-        later = int_eq_edges_ne(ac, T, is_idx, 0)
-        first = int_eq_edges(ac, T, is_idx, 0)
+        later = int_eq_edges_ne(ac, T, is_idx, 0) + int_gt_edges(ac, T, is_idx, 0)
+        first = int_eq_edges(ac, T, is_idx, 0) + [(b_, s_) for (b_, t_) in int_gt_edges(ac, T, is_idx, 0) for s_ in ac.succs(b_) if s_ != t_]
         ok = len(sp) == 1 and const_of(T.operand(sp[0][1]["args"][1])) == 0x20 and T.addr(sp[0][1]["args"][0]) == T.addr(qc[0][1]["args"][1]) \
             and bool(later) and bool(first) and dominated_by_edges(ac, sp[0][0], later, start=nx[0][0]) \
             and all(qc[0][0] not in ac.reachable(e_[1], removed_blocks={sp[0][0]}, stop_blocks=[nx[0][0]]) for e_ in later) \
@@ -219,7 +221,7 @@ def run(ctx):
         f_e = []
         if len(anyc) == 1:
             aa = [Tq.operand(x) for x in anyc[0][1]["args"]]
-            clo = aa[1][1][1] if aa[1][0] == "agg" and aa[1][1][0] == "closure" else None
+            clo = aa[1][1][1] if aa[1][0] == "agg" and aa[1][1][0] == "closure" else (aa[1][1] if aa[1][0] == "fnitem" and aa[1][1] in prog.fns else None)
             if clo and M.noref(M.strip(aa[0], also=(ENC,))) == argp:
                 lits, other = eq_literals(prog.fns[clo])
             f_e = bool_edges(aq, Tq, lambda c: c[0] == "call" and c[1] == "std::iter::Iterator::any", False)
@@ -305,13 +307,28 @@ def run(ctx):
                 return (a[0] << b[1], a[1] << b[1])
         return None
 
+    def is_get_i(t):
+        """arg.get(i): the checked read of the unit under the cursor"""
+        t = M.noref(t)
+        if not (t[0] == "call" and t[1].endswith("<impl [T]>::get") and len(t[2]) == 2 and M.noref(t[2][1]) == i_):
+            return False
+        b = M.noref(t[2][0])
+        while b[0] == "call" and ("deref" in b[1].lower() or "as_slice" in b[1]) and b[2]:
+            b = M.noref(b[2][0])
+        return b == v_
+
     def elem_at_i(t):
         t = M.noref(t)
+        if t[0] == "field" and t[2] == "0" and t[1][0] == "downcast" and t[1][2] == "Some" and is_get_i(t[1][1]):
+            return True
         return t[0] == "call" and "index" in t[1].lower() and M.noref(t[2][0]) == v_ and M.noref(t[2][1]) == i_
 
     is_len = lambda t: M.noref(t)[0] == "call" and M.noref(t)[1] == "std::vec::Vec::<T, A>::len" and M.noref(M.noref(t)[2][0]) == v_
     end_t = bool_edges(aq, S, lambda c: c[0] == "bin" and c[1] == "Eq" and ((M.noref(c[2]) == i_ and is_len(c[3])) or (M.noref(c[3]) == i_ and is_len(c[2]))), True)
     end_f = bool_edges(aq, S, lambda c: c[0] == "bin" and c[1] == "Eq" and ((M.noref(c[2]) == i_ and is_len(c[3])) or (M.noref(c[3]) == i_ and is_len(c[2]))), False)
+    # (`match arg.get(i) { None => .., Some(&c) => .. }` asks the same question as `i == arg.len()`)
+    end_t = end_t + variant_edges(aq, S, is_get_i, 0, [0, 1], "std::option::Option<")
+    end_f = end_f + variant_edges(aq, S, is_get_i, 1, [0, 1], "std::option::Option<")
     q_t = bool_edges(aq, S, lambda c: c[0] == "bin" and c[1] == "Eq" and elem_at_i(c[2]) and const_of(c[3]) == 0x22, True)
     q_f = bool_edges(aq, S, lambda c: c[0] == "bin" and c[1] == "Eq" and elem_at_i(c[2]) and const_of(c[3]) == 0x22, False)
     ranges = []
@@ -423,7 +440,8 @@ def run(ctx):
     in_bounds = lt_t + end_f
     idx_sites = [(bb, t) for bb, t in aq.calls() if "index" in M.callee_str(t["f"]).lower() and len(t["args"]) == 2
                  and M.noref(S.operand(t["args"][0])) == v_]
-    ctx.floor("R20.5", "arg[..] index sites", len(idx_sites), 3)
+    get_sites = [(bb, t) for bb, t in aq.calls() if is_get_i(("call", M.callee_str(t["f"]), tuple(S.operand(a_) for a_ in t["args"]), bb))]
+    ctx.floor("R20.5", "reads of the unit under the cursor (arg[i] / arg.get(i))", len(idx_sites) + len(get_sites), 3 if not get_sites else 2)
     for bb, t in idx_sites:
         at_i = M.noref(S.operand(t["args"][1])) == i_
         # the bound must have been established for the *current* value of i: also on every path that starts after an increment of i
